@@ -24,7 +24,8 @@
 //!   `ProofOptions::new` accepts, `to_options()`.
 //! * [`random_desc`]`(rng, &Budget) -> AirDesc` — random description within a size budget (structured
 //!   periodic columns and assertion sequences included); [`random_desc_for`] adds field-specific
-//!   low-degree periodic columns ([`low_degree_periodic`]).
+//!   low-degree periodic columns ([`low_degree_periodic`]) and geometric columns under sequence
+//!   assertions ([`trace_generator_pow`], [`interesting_degrees`], [`sequence_interpolants`]).
 //!
 //! # Notes for users
 //! * The harness is built with debug assertions: the library then validates the trace before
@@ -2342,5 +2343,75 @@ pub fn random_desc_for(rng: &mut Rng, bud: &Budget, field: FieldId) -> AirDesc {
         let deg = if c >= 4 { rng.range(1, (c / 2 - 1) as u64) as usize } else { 0 };
         d.periodic[i] = low_degree_periodic(field, c, deg, rng.u64());
     }
+    // in one case out of four a never-constrained free column under a sequence assertion becomes a
+    // geometric column, so that the asserted values have an interpolant of a chosen (interesting)
+    // degree instead of a generic full-degree one
+    if rng.chance(1, 4) {
+        let n = d.trace_len;
+        let cands: Vec<(usize, usize)> = d
+            .assertions
+            .iter()
+            .filter(|a| a.kind == AssertKind::Sequence && a.num_values(n) >= 2)
+            .filter(|a| matches!(d.cols[a.column], ColGen::Rand | ColGen::LowDeg(_)))
+            .map(|a| (a.column, a.num_values(n)))
+            .collect();
+        if !cands.is_empty() {
+            let (j, m) = *rng.pick(&cands);
+            let deg = *rng.pick(&interesting_degrees(m));
+            let ratio = Expr::Const(trace_generator_pow(field, n, deg as u64));
+            let rule = Expr::mul(ratio, Expr::Cur(j));
+            d.cols[j] = ColGen::Step { init: Some(1), expr: rule.clone() };
+            d.constraints.push(Constraint { degree: Degree::new(1), expr: Expr::sub(Expr::Nxt(j), rule) });
+        }
+    }
     d
+}
+
+fn trace_generator_pow_g<B: GField>(n: usize, e: u64) -> u128 {
+    let g = B::get_root_of_unity(n.ilog2());
+    g.exp_u(e as u128).canon()
+}
+
+/// `g^e` for the generator `g` of the trace domain of `n` rows over `field`. A column with
+/// `T[i] = (g^e)^i` (generation rule `S1:*k<g^e>c<j>`, constraint `1:-n<j>*k<g^e>c<j>`) is a valid
+/// geometric column whose sequence assertion with `m = n / stride` values has the value polynomial
+/// `const * x^(e mod m)`: the way to obtain asserted sequences with an interpolant of a chosen degree.
+pub fn trace_generator_pow(field: FieldId, n: usize, e: u64) -> u128 {
+    assert!(n.is_power_of_two() && n >= 2);
+    by_field!(field, trace_generator_pow_g, (n, e))
+}
+
+fn sequence_interpolants_g<B: GField>(desc: &AirDesc, trace: &TraceData) -> Vec<(usize, usize)> {
+    let n = desc.trace_len;
+    let mut out = vec![];
+    for a in &desc.assertions {
+        if a.kind != AssertKind::Sequence || a.column >= trace.len() {
+            continue;
+        }
+        let m = a.num_values(n);
+        if m < 2 {
+            continue;
+        }
+        let mut vals: Vec<B> = a.steps(n).iter().map(|s| B::from_word(trace[a.column][*s] % B::MOD)).collect();
+        let inv_twiddles = winter_math::fft::get_inv_twiddles::<B>(m);
+        winter_math::fft::interpolate_poly(&mut vals, &inv_twiddles);
+        out.push((m, winter_math::polynom::degree_of(&vals)));
+    }
+    out
+}
+
+/// for every main sequence assertion with at least two values: (#values, degree of the polynomial
+/// interpolating the asserted values over the assertion's own domain) — evidence labelling
+pub fn sequence_interpolants(desc: &AirDesc, field: FieldId, trace: &TraceData) -> Vec<(usize, usize)> {
+    by_field!(field, sequence_interpolants_g, (desc, trace))
+}
+
+/// interesting interpolant degrees for a sequence of `m` values: ends, middle, and the neighbourhood
+/// of the prover's small/large polynomial threshold (63 coefficients)
+pub fn interesting_degrees(m: usize) -> Vec<usize> {
+    let mut v = vec![0, 1, 2, 61, 62, 63, 64, 65, 70, m / 2 - 1, m / 2, m / 2 + 1, m.saturating_sub(3), m - 2, m - 1];
+    v.retain(|d| *d < m);
+    v.sort();
+    v.dedup();
+    v
 }
